@@ -21,6 +21,9 @@ TEXT = {
         level_note="Lean kernel; translator; harness; zlib as second oracle",
         technique="Lean 4 proof over bit-serial CRC spec + table model, correspondence to C by differential execution"),
 }
+TEXT["C17"] = dict(
+    text="(under construction) schema traversal model tied to build_schema/find_column/builder by correspondence",
+    level_note="Lean kernel; harness", technique="Lean 4 proof by structural induction over schema trees + differential correspondence")
 NOT_APPLICABLE = {}
 HOOK_COMMITS = []
 
